@@ -1,7 +1,7 @@
 (* Property C15 - only statements, each closed by [exact]. *)
 From Coq Require Import NArith List Bool.
 Import ListNotations.
-Require Import UV.C15.Model UV.C15.Proofs.
+Require Import UV.C15.Model UV.C15.Doc UV.C15.Proofs.
 Local Open Scope N_scope.
 
 (* Function names and string arguments: whatever bytes a name consists of, the text that
@@ -176,3 +176,38 @@ Theorem C15_flame_sampled_one_line_per_path : forall sample rootname tids s,
   NoDup (map fst (flame_rows sample (graph_build sample rootname tids s))).
 Proof. exact flame_sampled_one_line_per_path. Qed.
 Print Assumptions C15_flame_sampled_one_line_per_path.
+
+(* ---------------------------------------------------------------------------------------------------------- *)
+(* `dump --chrome` IS VALID JSON.  json_ok is a validator for RFC 8259 texts (push-down automaton over the bytes,
+   strings checked as UTF-8); chrome_doc is the complete text dump_chrome_header / dump_chrome_task_rstack /
+   dump_chrome_footer write (compared byte for byte with the real output on every run).  For EVERY list of tasks
+   and task names (also none), EVERY list of function events (also none: all records filtered out), every function
+   name, string argument / return value and stored command line the text is one JSON document; only the version
+   string and the date (ctime) must be free of quotes, backslashes and control bytes. *)
+Theorem C15_chrome_json_valid : forall comms evts version date cmdline,
+  (forall tc, In tc comms -> fst tc < BIG) -> Forall evt_bounded evts ->
+  forallb plain2 version = true -> forallb plain2 date = true ->
+  json_ok (chrome_doc true comms evts version date cmdline) = true.
+Proof. exact chrome_doc_valid. Qed.
+Print Assumptions C15_chrome_json_valid.
+
+(* ... in particular for the events of any record stream whose ids and time stamps are below 10^40 (any 64-bit
+   value), closing events included; these events are, decoded, the ones C15_chrome_structure speaks about. *)
+Theorem C15_chrome_json_valid_stream : forall tasks comms s args version date cmdline,
+  (forall tp, In tp tasks -> fst tp < BIG /\ snd tp < BIG) -> (forall tc, In tc comms -> fst tc < BIG) ->
+  (forall r, In r s -> fst r < BIG /\ ev_time (snd r) < BIG) ->
+  forallb plain2 version = true -> forallb plain2 date = true ->
+  json_ok (chrome_doc true comms (chrome_evts tasks s args) version date cmdline) = true.
+Proof. exact chrome_stream_doc_valid. Qed.
+Print Assumptions C15_chrome_json_valid_stream.
+
+Theorem C15_chrome_doc_events : forall tasks s args, map cev_of (chrome_evts tasks s args) = chrome_events tasks s.
+Proof. exact chrome_evts_decoded. Qed.
+Print Assumptions C15_chrome_doc_events.
+
+(* the code as found (every metadata event followed by a comma) was NOT valid when no function event is printed *)
+Theorem C15_chrome_json_legacy_refuted :
+  json_ok (chrome_doc false [(100, [112])] [] [118] [100] None) = false
+  /\ json_ok (chrome_doc true [(100, [112])] [] [118] [100] None) = true.
+Proof. exact chrome_doc_legacy_refuted. Qed.
+Print Assumptions C15_chrome_json_legacy_refuted.
